@@ -674,6 +674,7 @@ class DataStoreMachine(StoreMachine):
     OPS = ('NEW', 'MUTATE', 'W', 'R', 'CYCLE', 'SHIPPED', 'CRASH', 'PERMUTE')
     STEP_BUDGET = 6000000
     STRIP_FIRST = True
+    EMPTY_IS_ABSENT = True
 
     @classmethod
     def knobs(cls, rng, tier):
@@ -762,7 +763,13 @@ class DataStoreMachine(StoreMachine):
         return self.td.t2data(self.path(name + '.dat'), meshfilename=self.mesharg(name, cfg), **kw)
 
     def compare(self, want, got, cfg, what):
-        compare_data(want, got, cfg, what)
+        try:
+            compare_data(want, got, cfg, what)
+        except Violation as v:
+            if cfg.get('reinsert_risk') and v.check in ('O1.short', 'O1.foft', 'O1.coft',
+                                                        'O1.goft', 'O1.sections'):
+                v.key = 'permuted-sections+xp-reinsert'
+            raise
 
     def cfg_fp(self, cfg):
         return (cfg.get('mesh'), tuple(cfg.get('xp') or ()), cfg.get('echo_off'))
@@ -814,6 +821,14 @@ class DataStoreMachine(StoreMachine):
                 return
             dat.update_sections()
             cfg['present'] = list(dat._sections)
+            # known finding D18: sections that return from the companion file to the main file
+            # are re-inserted by a heuristic that knows only the canonical order
+            canon = [k for k in self.td.t2data_sections if k in dat._sections]
+            old_xp = list(dat.extra_precision)
+            back = (set(old_xp) - set(cfg['xp'])) or \
+                (old_xp and not dat.echo_extra_precision and not cfg['echo_off'])
+            cfg['reinsert_risk'] = bool(back) and (dat._sections != canon or
+                                                   set(old_xp) - set(dat._sections))
             self.do_write(slot, name, cfg, fault)
         elif kind == 'R':
             self.do_read(self.pick_name(ch[0]), None if ch[1] == 3 else ch[1], fault)
@@ -884,6 +899,8 @@ class DataStoreMachine(StoreMachine):
         if what == 0 and g.rocktypelist:
             rt = rng.choice(g.rocktypelist)
             rt.porosity = val(rng, 'e10.4')
+            if dat.type == 'AUTOUGH2':      # representable in the companion's 15.8e (see xval)
+                rt.porosity = float('%.8e' % rt.porosity)
         elif what == 1 and dat.generatorlist:
             gen = rng.choice(dat.generatorlist)
             dat.delete_generator((gen.block, gen.name))
